@@ -118,6 +118,11 @@ func runC06(e *Env) {
 	cfg.Chan = e.drawBuffered(cfg.Chan)
 	cfg.Writers = 1 + e.P(3)
 	cfg.PerWriter = 1 + e.P(4)
+	if e.P(8) == 7 && cfg.Chan.Async {
+		// a long sender run: many payloads through a tiny queue, so that one sender task writes many batches in a row
+		cfg.Writers, cfg.PerWriter = 4, 5+e.P(2)
+		cfg.Chan.Q = 1 + e.P(2)
+	}
 	cfg.CloseHow = e.P(2)
 	cfg.Stalls = true
 	cfg.ExecDelay = e.P(3) == 2
